@@ -723,17 +723,21 @@ pub fn gen_case(rng: &mut Rng) -> HistCase {
         rules.push(gen_rule(rng, i, &tys, mode));
     }
     let drop = if rng.chance(1, 8) { 6 } else { 0 };
-    let nops = 1 + rng.below(12);
+    // one case in 25 is LONG: 40..=200 operations over up to 150 facts (working memory, alpha
+    // memories and the agenda far beyond the handful of entries of the other cases)
+    let long = rng.chance(1, 25);
+    let nops = if long { 40 + rng.below(161) } else { 1 + rng.below(12) };
+    let (ins_below, max_facts) = if long { (60, 150) } else { (30, 6) };
     let mut ops: Vec<HOp> = Vec::new();
     let mut nfacts = 0usize;
     for _ in 0..nops {
         let r = rng.below(100);
-        if nfacts == 0 || (r < 30 && nfacts < 6) {
+        if nfacts == 0 || (r < ins_below && nfacts < max_facts) {
             ops.push(HOp::Insert { slot: nfacts, ty: rng.pick(&tys).to_string(), fields: gen_fields(rng, drop) });
             nfacts += 1;
-        } else if r < 55 {
+        } else if r < 55 || (long && r < 75) {
             ops.push(HOp::Update { slot: rng.below(nfacts), fields: gen_fields(rng, drop) });
-        } else if r < 67 {
+        } else if r < 67 || (long && r < 85) {
             ops.push(HOp::Retract { slot: rng.below(nfacts) });
         } else if r < 92 {
             ops.push(HOp::FireAll);
@@ -742,7 +746,7 @@ pub fn gen_case(rng: &mut Rng) -> HistCase {
         }
     }
     if !ops.iter().any(|o| matches!(o, HOp::FireAll)) {
-        if ops.len() >= 12 {
+        if ops.len() >= 12 && !long {
             ops.pop();
         }
         ops.push(HOp::FireAll);
